@@ -386,6 +386,7 @@ class FakeRaceEs:
         self.indices = _Indices(self)
         self._client_meta = ()
         self.seed = seed
+        self.legacy_total = seed % 4 == 0  # hits.total as a plain number (Elasticsearch < 7) instead of {"value": n, "relation": "eq"}
         self.templates = {}
         self.docs = {}  # (index, _id) -> {"src": source, "pipe": pipeline of a planted malformed document}
         self.auto = 0
@@ -446,7 +447,7 @@ class FakeRaceEs:
         if size < 0:
             raise _es._api_error(400, "illegal_argument_exception")  # pylint: disable=protected-access
         hits = [{"_index": k[0], "_id": k[1], "_score": None, "_source": copy.deepcopy(self.docs[k]["src"])} for k in keys[:size]]
-        return _es._response({"took": 1, "timed_out": False, "hits": {"total": {"value": len(keys), "relation": "eq"}, "max_score": None, "hits": hits}})  # pylint: disable=protected-access
+        return _es._response({"took": 1, "timed_out": False, "hits": {"total": len(keys) if self.legacy_total else {"value": len(keys), "relation": "eq"}, "max_score": None, "hits": hits}})  # pylint: disable=protected-access
 
     def delete_by_query(self, index=None, body=None, **kwargs):
         if kwargs:
@@ -1149,6 +1150,24 @@ def _cause(clause, events, line):
     return "?"
 
 
+SWITCHES = ("NameFilterSound", "FileChallengeFilter", "StoreByRaceId", "EsOneDocPerRace")
+
+
+def _trace_cfg_text():
+    """TraceRaceStore.cfg describes the code as it is (all switches FALSE).  VERIF_RACESTORE_FIXED=Switch,... validates against the specification
+    with these switches TRUE (for a tree in which the deviation has been repaired) without editing the configuration file."""
+    fixed = [s for s in os.environ.get("VERIF_RACESTORE_FIXED", "").split(",") if s]
+    if not fixed:
+        return None
+    with open(os.path.join(tlc.SPECS, "RaceStore", "TraceRaceStore.cfg"), "r", encoding="utf-8") as f:
+        text = f.read()
+    for s in fixed:
+        text, n = re.subn(r"^  %s = FALSE$" % re.escape(s), "  %s = TRUE" % s, text, flags=re.M)
+        if s not in SWITCHES or n != 1:
+            raise tlc.MachineryError("VERIF_RACESTORE_FIXED: unknown switch %r" % s)
+    return text
+
+
 def run_cases(cases, out, label, scratch, chunk=400):
     items, index = [], {}
     for ci, case in enumerate(cases):
@@ -1161,7 +1180,7 @@ def run_cases(cases, out, label, scratch, chunk=400):
             out.drift.append("case %s (%s): %s" % (tid, case["src"], s))
     if not items:
         raise tlc.MachineryError("no executions for %s" % label)
-    verdicts = tracecheck.validate("RaceStore", "TraceRaceStore", "TraceRaceStore.cfg", items, name="xracestore-trace", chunk=chunk, timeout=900)
+    verdicts = tracecheck.validate("RaceStore", "TraceRaceStore", "TraceRaceStore.cfg", items, name="xracestore-trace", chunk=chunk, timeout=900, cfg_text=_trace_cfg_text())
     out.states += verdicts.n_events
     out.transitions += verdicts.n_events
     out.traces_validated += verdicts.accepted(len(items))
@@ -1266,6 +1285,8 @@ def run(ctx, out):
     run_cases(rnd, out, "rnd", scratch)
     out.sample({"source": "random", "ops": [{k: v for k, v in o.items() if k not in ("r", "c", "d")} for o in rnd[0]["ops"][:10]]})
     out.note("leg C2S: %d executions validated by TLC, %d L1 findings, %d drift" % (out.traces_validated, len(out.violations), len(out.drift)))
+    for d in out.drift[:5]:
+        out.note("MODEL-DRIFT " + d[:400])
     # ---- binding self-test: corrupted recordings must be rejected
     tid, (case, events) = next((t, ce) for t, ce in sorted(idx.items()) if ce[0]["src"] == "directed:limit-order-dates")
     muts = []
